@@ -114,7 +114,7 @@ def gen_env(rng, p, c, o):
                 elif r < 0.35 + (0.25 if o.get("_is_async") else 0.03):
                     op[1] = p["att_timeout"]
                     op.append("hang")
-    svals = [0, 0, 1, 1, 2, 3, 5, 8, dl, dl + 3, 2**20, -1, -5, "nan", "inf", "-inf"]
+    svals = [0, 0, 1, 1, 2, 3, 5, 8, dl, dl + 3, 2**20, -1, -5, "nan", "inf", "-inf", "huge", "-huge"]
     env = {
         "ops": ops,
         "abort": [], "strat": [rng.choice(svals) for _ in range(n_ops)],
@@ -171,6 +171,7 @@ def gen_call(rng, pidx, p, o, entries=None):
                    "suspend_sleep": rng.random() < 0.5, "sync_hooks": rng.random() < 0.3, "awaitable_obj": rng.random() < 0.3}
     variant["bare"] = rng.randrange(2)
     variant["hook_shape"] = rng.randrange(3)
+    variant["falsy_hooks"] = rng.random() < 0.3
     variant["cancel_bridge"] = rng.random() < 0.3      # "cancelled" is raised as a CancelledError subclass that is also an Exception
     variant["tl_object"] = rng.random() < 0.3
     env = gen_env(rng, p, c, dict(o, _is_async=is_async))
@@ -284,6 +285,8 @@ def g_op(op):
 
 
 def g_sval(v):
+    if v in ("huge", "-huge"):        # 1e300 s: any finite value beyond every deadline (the model only takes min / max with it)
+        return G.con("SFin", "(2 ^ 1000)" if v == "huge" else "(- 2 ^ 1000)")
     return {"nan": "SNaN", "inf": "SPInf", "-inf": "SNInf"}.get(v) or G.con("SFin", G.z(v))
 
 
